@@ -25,7 +25,7 @@ import (
 //
 // observable: one word per event, "<tag>:<state>" with tag a<decision><Connected()> | x | b | t | ?
 // and state = n<Count()>/I<inbound pids>/O<outbound pids>/P<persistent pids>/H<host:connectionCount,..>
-// /G<group:outboundGroups,..>/B<host:remaining ban units,..>; zero counters are not printed,
+// /G<group:outboundGroups,..>/B<host:remaining ban units,..> (bans still in force); zero counters are not printed,
 // everything is sorted.  pids are the case's logical pids (the harness maps peer.ID() back).
 
 const c18Unit = time.Hour
@@ -151,25 +151,23 @@ func c18RunAdm(head []string, evs []string) (obs string) {
 			}
 			return strings.Join(w, ",")
 		}
-		bl := map[string]int{}
-		blz := map[string]bool{}
-		for k, v := range s.BannedLeft {
-			n := int(math.Round(float64(v) / float64(c18Unit)))
-			bl[k] = n
-			blz[k] = true
-		}
-		// banned entries are printed even when the remaining time rounds to 0
+		// ban table: only entries that are still in force (>= 1 unit left) are part of the
+		// observable; whether an expired entry is dropped eagerly or lazily is not behaviour
 		type be struct {
 			n int
 			v int
 		}
 		var bs []be
-		for k := range blz {
+		for k, v := range s.BannedLeft {
+			left := int(math.Round(float64(v) / float64(c18Unit)))
+			if left < 1 {
+				continue
+			}
 			n, err := strconv.Atoi(c18HostOfIP(k))
 			if err != nil {
 				n = 1 << 30
 			}
-			bs = append(bs, be{n, bl[k]})
+			bs = append(bs, be{n, left})
 		}
 		sort.Slice(bs, func(i, j int) bool { return bs[i].n < bs[j].n })
 		bw := make([]string, len(bs))
